@@ -32,7 +32,7 @@ def random_header(rnd):
     for h in HS:
         if beh[h][0] == 'drop' and beh[beh[h][1]][0] in ('disp', 'enable'):
             beh[h] = ['nop', '-']
-    return {'subs': subs, 'beh': beh}
+    return {'subs': subs, 'beh': beh, 'ids': True}
 
 
 def record(desper, seed, n_traces, n_calls):
